@@ -50,8 +50,8 @@ enum { MAXC = 512, MAXCLS = 96, MAXMET = 32 };
 // runtime, so only the first case reaching a site is recorded — one per root cause.
 extern "C" void __ubsan_get_current_report_data(const char** kind, const char** msg, const char** file, unsigned* line, unsigned* col, char** addr);
 struct UbsanHit { bool hit = false; char key[256]; char msg[512]; };
-static thread_local UbsanHit tl_ubsan;
-extern "C" void __ubsan_on_report(void) {
+inline thread_local UbsanHit tl_ubsan;
+extern "C" __attribute__((weak)) void __ubsan_on_report(void) {
 	const char *kind = "", *msg = "", *file = ""; unsigned line = 0, col = 0; char* addr = nullptr;
 	__ubsan_get_current_report_data(&kind, &msg, &file, &line, &col, &addr);
 	if (tl_ubsan.hit) return;
@@ -177,7 +177,7 @@ struct Target {
 	std::string rule;  // what is generated, what counts as non-trivial
 };
 
-static std::vector<Target>& targets() { static std::vector<Target> t; return t; }
+inline std::vector<Target>& targets() { static std::vector<Target> t; return t; }
 struct Reg {
 	Reg(const char* name, PropFn fn, uint64_t q, uint64_t t, const char* rule) {
 		Target x; x.name = name; x.fn = fn; x.quick_cases = q; x.thorough_cases = t; x.rule = rule; targets().push_back(x);
